@@ -1,6 +1,6 @@
 //! C12: connection lifecycle events are well formed and correctly timed.
 use crate::explore::{explore, ExploreCfg};
-use crate::net::{Fate, Outage};
+use crate::net::{Fate, Outage, ScriptedFate};
 use crate::props::core::{base_scn, packet_faults};
 use crate::report::Report;
 use crate::scenario::*;
@@ -374,6 +374,36 @@ pub fn c12() -> i32 {
             s.horizon = 5 + cycles * 12 + 5;
             s.probe = 130;
             s.checks = CK_C02 | CK_SIZES;
+            scns.push(s);
+        }
+        // several events pushed by ONE advance_frame call onto a full queue: diverging games with
+        // desync detection on (one DesyncDetected per remote and compared frame), three peers or
+        // checksum reports arriving in a burst
+        for (tp, iv, burst) in [("1+1+1", 1u32, 0), ("1+1", 1, 4), ("1+1", 1, 9), ("1+1+1", 2, 5), ("1+1", 3, 7)] {
+            let mut s = base_scn("c12-undrained-desync", tp, 8, 0, false, Pred::RepeatLast, Program::Changing, 1);
+            for p in s.peers.iter_mut() {
+                p.desync = iv;
+                p.drain = false;
+            }
+            s.diverge = Some((1, 3));
+            let (a, b) = (s.peers[0].addr, s.peers[1].addr);
+            let rounds = 130 * iv as i32 + 40;
+            if burst > 0 {
+                let mut c = 10;
+                while c < rounds {
+                    // the reports of `burst` consecutive rounds are held and handed over together
+                    for i in 0..burst {
+                        for (from, to) in [(b, a), (a, b)] {
+                            s.scripted.push(ScriptedFate { from, to, round: c + i, classes: 1 << K_CHECKSUM, fate: Fate::Delay(burst - i) });
+                        }
+                    }
+                    c += burst + 6;
+                }
+            }
+            s.name = format!("{} undrained interval={iv} checksum-burst={burst} node 1 diverges from frame 3", s.name);
+            s.horizon = rounds;
+            s.probe = 30;
+            s.checks = CK_SIZES;
             scns.push(s);
         }
         let cfg = ExploreCfg { k: Some(0), wall: Duration::from_secs(120), ..Default::default() };
